@@ -1,4 +1,271 @@
-// harness ops for rules (filled in when the module is ported)
-pub fn handle(_op: &str, _args: &[&str], _text: &str) -> Option<String> {
-    None
+// harness ops for rules.rs (C11): make_rule, ApplyRule::{count_apps, apply_rule} on a real
+// BasicTape.  The rule is space separated, so it occupies all the arguments after the tape.
+//
+//   mkrule <c1> <c2> <c3> <c4>      each <ci> = "l,l,l;r,r,r"      -> none | <rule>
+//   countapps <tape> <rule>         -> none | <times>,<L|R>,<index>,<minres>
+//   applyrule <tape> <rule>         -> <none|times> -> <tape after>
+//
+//   <tape> = <scan>|<colour>^<count>,...|<colour>^<count>,...   (left nearest first | right nearest first)
+//   <rule> = "-" or entries "<L|R><index>:<op>", <op> = "+d" | "-d" | "*q+r" | "*q-r"
+//
+// The fields of `Tape` are private, so the tape is built through the public API only: the cells
+// are laid down with `Tape::step` (one cell per block) and the counts are then written with
+// `IndexTape::set_count`.  Shapes that stepping cannot produce (adjacent blocks of one colour,
+// colour 0 in the farthest block of a side) give BAD-TAPE.  The tape is read back through
+// `scan`, `signature()` (colours) and `counts()`.
+use crate::instrs::Color;
+use crate::rules::{make_rule, ApplyRule as _, Diff, Op, Rule};
+use crate::tape::{
+    BasicTape, ColorCount, Count, Counts, GetSig as _, Index, IndexTape as _,
+};
+
+fn digits(s: &str) -> bool {
+    !s.is_empty() && s.bytes().all(|b| b.is_ascii_digit())
+}
+
+fn parse_u64(s: &str) -> Option<u64> {
+    if digits(s) { s.parse::<u64>().ok() } else { None }
+}
+
+fn parse_list<T>(s: &str, f: impl Fn(&str) -> Option<T>) -> Option<Vec<T>> {
+    if s.is_empty() {
+        return Some(vec![]);
+    }
+    s.split(',').map(f).collect()
+}
+
+fn parse_counts(s: &str) -> Option<Counts> {
+    let parts: Vec<&str> = s.split(';').collect();
+    let [l, r] = parts[..] else { return None };
+    Some((parse_list(l, parse_u64)?, parse_list(r, parse_u64)?))
+}
+
+fn parse_block(s: &str) -> Option<(Color, Count)> {
+    let parts: Vec<&str> = s.split('^').collect();
+    let [c, n] = parts[..] else { return None };
+    Some((parse_u64(c)?, parse_u64(n)?))
+}
+
+struct TapeSpec {
+    scan: Color,
+    lspan: Vec<(Color, Count)>,
+    rspan: Vec<(Color, Count)>,
+}
+
+fn parse_tape(s: &str) -> Option<TapeSpec> {
+    let parts: Vec<&str> = s.split('|').collect();
+    let [sc, l, r] = parts[..] else { return None };
+    Some(TapeSpec {
+        scan: parse_u64(sc)?,
+        lspan: parse_list(l, parse_block)?,
+        rspan: parse_list(r, parse_block)?,
+    })
+}
+
+// sign character + digits, within i32
+fn parse_signed(s: &str) -> Option<Diff> {
+    let (neg, ds) = if let Some(ds) = s.strip_prefix('+') {
+        (false, ds)
+    } else if let Some(ds) = s.strip_prefix('-') {
+        (true, ds)
+    } else {
+        return None;
+    };
+    if !digits(ds) {
+        return None;
+    }
+    let n = ds.parse::<i128>().ok()?;
+    Diff::try_from(if neg { -n } else { n }).ok()
+}
+
+fn parse_op(s: &str) -> Option<Op> {
+    if let Some(rest) = s.strip_prefix('*') {
+        let (neg, body) = match rest.strip_prefix('-') {
+            Some(b) => (true, b),
+            None => (false, rest),
+        };
+        let cut = body
+            .bytes()
+            .position(|b| !b.is_ascii_digit())
+            .unwrap_or(body.len());
+        let (qd, rd) = body.split_at(cut);
+        let q = parse_signed(&format!("{}{qd}", if neg { "-" } else { "+" }))?;
+        let r = parse_signed(rd)?;
+        Some(Op::Mult((q, r)))
+    } else {
+        Some(Op::Plus(parse_signed(s)?))
+    }
+}
+
+fn parse_entry(s: &str) -> Option<(Index, Op)> {
+    let side = match s.as_bytes().first()? {
+        b'L' => false,
+        b'R' => true,
+        _ => return None,
+    };
+    let rest = &s[1..];
+    let colon = rest.find(':')?;
+    let idx = usize::try_from(parse_u64(&rest[..colon])?).ok()?;
+    let op = parse_op(&rest[colon + 1..])?;
+    Some(((side, idx), op))
+}
+
+fn parse_rule(args: &[&str]) -> Option<Rule> {
+    if args.is_empty() {
+        return None;
+    }
+    if args == ["-"] {
+        return Some(Rule::new());
+    }
+    let entries: Vec<(Index, Op)> =
+        args.iter().map(|a| parse_entry(a)).collect::<Option<_>>()?;
+    let mut rule = Rule::new();
+    for (k, v) in entries {
+        rule.insert(k, v);
+    }
+    Some(rule)
+}
+
+fn show_signed(d: Diff) -> String {
+    format!("{d:+}")
+}
+
+fn show_op(op: &Op) -> String {
+    match op {
+        Op::Plus(d) => show_signed(*d),
+        Op::Mult((q, r)) => format!("*{q}{}", show_signed(*r)),
+    }
+}
+
+fn show_rule(rule: &Rule) -> String {
+    if rule.is_empty() {
+        return "-".to_owned();
+    }
+    rule.iter()
+        .map(|(&(side, idx), op)| {
+            format!("{}{idx}:{}", if side { "R" } else { "L" }, show_op(op))
+        })
+        .collect::<Vec<_>>()
+        .join(" ")
+}
+
+fn cc_color(cc: &ColorCount) -> Color {
+    match cc {
+        ColorCount::Just(c) | ColorCount::Mult(c) => *c,
+    }
+}
+
+fn show_tape(tape: &BasicTape) -> String {
+    let sig = tape.signature();
+    let (lc, rc) = tape.counts();
+    let side = |ccs: &[ColorCount], counts: &[Count]| {
+        ccs.iter()
+            .zip(counts.iter())
+            .map(|(cc, n)| format!("{}^{n}", cc_color(cc)))
+            .collect::<Vec<_>>()
+            .join(",")
+    };
+    format!(
+        "{}|{}|{}",
+        tape.scan,
+        side(&sig.lspan, &lc),
+        side(&sig.rspan, &rc)
+    )
+}
+
+// Lay the cells  l[n-1] .. l[0] s r[0] .. r[m-1]  down from right to left (each leftward step
+// prints one cell onto the right span), then walk right over the left part re-printing every
+// cell, which moves it onto the left span.  Finally write the counts.
+fn build_tape(spec: &TapeSpec) -> Option<BasicTape> {
+    let mut tape = BasicTape::init(0);
+
+    for &(c, _) in spec.rspan.iter().rev() {
+        tape.step(false, c, false);
+    }
+    tape.step(false, spec.scan, false);
+    for &(c, _) in &spec.lspan {
+        tape.step(false, c, false);
+    }
+
+    // now: scan 0 (blank), everything on the right span
+    tape.step(true, 0, false);
+    for &(c, _) in spec.lspan.iter().rev() {
+        tape.step(true, c, false);
+    }
+
+    // check the shape through the public observers
+    let sig = tape.signature();
+    let want_l: Vec<Color> = spec.lspan.iter().map(|b| b.0).collect();
+    let want_r: Vec<Color> = spec.rspan.iter().map(|b| b.0).collect();
+    let got_l: Vec<Color> = sig.lspan.iter().map(cc_color).collect();
+    let got_r: Vec<Color> = sig.rspan.iter().map(cc_color).collect();
+    if tape.scan != spec.scan
+        || got_l != want_l
+        || got_r != want_r
+        || tape.span_lens() != (want_l.len(), want_r.len())
+    {
+        return None;
+    }
+
+    for (i, &(_, n)) in spec.lspan.iter().enumerate() {
+        tape.set_count(&(false, i), n);
+    }
+    for (i, &(_, n)) in spec.rspan.iter().enumerate() {
+        tape.set_count(&(true, i), n);
+    }
+
+    Some(tape)
+}
+
+fn with_tape_rule(
+    tape: &str,
+    rule: &[&str],
+    f: impl FnOnce(BasicTape, Rule) -> String,
+) -> String {
+    let (Some(spec), Some(rule)) = (parse_tape(tape), parse_rule(rule)) else {
+        return "BAD-ARG".to_owned();
+    };
+    match build_tape(&spec) {
+        Some(t) => f(t, rule),
+        None => "BAD-TAPE".to_owned(),
+    }
+}
+
+pub fn handle(op: &str, args: &[&str], _text: &str) -> Option<String> {
+    match (op, args) {
+        ("mkrule", [a, b, c, d]) => {
+            let (Some(a), Some(b), Some(c), Some(d)) = (
+                parse_counts(a),
+                parse_counts(b),
+                parse_counts(c),
+                parse_counts(d),
+            ) else {
+                return Some("BAD-ARG".to_owned());
+            };
+            Some(match make_rule(&a, &b, &c, &d) {
+                None => "none".to_owned(),
+                Some(rule) => show_rule(&rule),
+            })
+        },
+        ("countapps", [tape, rule @ ..]) => {
+            Some(with_tape_rule(tape, rule, |t, r| match t.count_apps(&r) {
+                None => "none".to_owned(),
+                Some((times, (side, idx), min_res)) => format!(
+                    "{times},{},{idx},{min_res}",
+                    if side { "R" } else { "L" }
+                ),
+            }))
+        },
+        ("applyrule", [tape, rule @ ..]) => {
+            Some(with_tape_rule(tape, rule, |mut t, r| {
+                let res = t.apply_rule(&r);
+                let shown = show_tape(&t);
+                match res {
+                    None => format!("none -> {shown}"),
+                    Some(times) => format!("{times} -> {shown}"),
+                }
+            }))
+        },
+        _ => None,
+    }
 }
